@@ -211,27 +211,38 @@ func (c *Ctx) genC14() {
 		if i >= len(hostile) {
 			relay = pickS(c.rng.Intn(len(hostile) * 2))
 		}
+		// the three SP forms are rendered first and inspected afterwards: a form that was handed out stays what it was, whatever is
+		// rendered next (another message, another destination, another relay state)
+		var out0, out1, out2 []byte
+		dest1, dest2 := pickU(i+5), pickU(i+7)
+		relay1 := pickS((i + 2) % len(hostile))
+		nid := pickS(i % len(hostile))
 		// SP AuthnRequest form (template 0 in service_provider.go)
 		{
 			r := &saml.AuthnRequest{ID: "id-1", Destination: dest, IssueInstant: now, Version: "2.0", AssertionConsumerServiceURL: pickU(i + 3)}
-			var out []byte
-			if p := safely(func() string { out = r.Post(relay); return "ok" }); p != "ok" {
-				out = []byte("<!-- " + p + " -->") // (a panic while rendering: no form at all — the oracle says so)
+			if p := safely(func() string { out0 = r.Post(relay); return "ok" }); p != "ok" {
+				out0 = []byte("<!-- " + p + " -->") // (a panic while rendering: no form at all — the oracle says so)
 			}
-			v, _ := inputValOf(out, "SAMLRequest")
-			c.formCase("service_provider.go", 0, out, [][2]string{{"URL", dest}, {"SAMLRequest", v}, {"RelayState", relay}}, dest, 1, nil, "", "")
 		}
 		{
-			r := &saml.LogoutRequest{ID: "id-2", Destination: dest, IssueInstant: now, Version: "2.0", NameID: &saml.NameID{Value: pickS(i % len(hostile))}}
-			out := r.Post(relay)
-			v, _ := inputValOf(out, "SAMLRequest")
-			c.formCase("service_provider.go", 1, out, [][2]string{{"URL", dest}, {"SAMLRequest", v}, {"RelayState", relay}}, dest, 1, nil, "", "")
+			r := &saml.LogoutRequest{ID: "id-2", Destination: dest1, IssueInstant: now, Version: "2.0", NameID: &saml.NameID{Value: nid}}
+			out1 = r.Post(relay1)
 		}
 		{
-			r := &saml.LogoutResponse{ID: "id-3", Destination: dest, IssueInstant: now, Version: "2.0"}
-			out := r.Post(relay)
-			v, _ := inputValOf(out, "SAMLResponse")
-			c.formCase("service_provider.go", 2, out, [][2]string{{"URL", dest}, {"SAMLResponse", v}, {"RelayState", relay}}, dest, 1, nil, "", "")
+			r := &saml.LogoutResponse{ID: "id-3", Destination: dest2, IssueInstant: now, Version: "2.0"}
+			out2 = r.Post(relay)
+		}
+		{
+			v, _ := inputValOf(out0, "SAMLRequest")
+			c.formCase("service_provider.go", 0, out0, [][2]string{{"URL", dest}, {"SAMLRequest", v}, {"RelayState", relay}}, dest, 1, nil, "", "")
+		}
+		{
+			v, _ := inputValOf(out1, "SAMLRequest")
+			c.formCase("service_provider.go", 1, out1, [][2]string{{"URL", dest1}, {"SAMLRequest", v}, {"RelayState", relay1}}, dest1, 1, nil, "", "")
+		}
+		{
+			v, _ := inputValOf(out2, "SAMLResponse")
+			c.formCase("service_provider.go", 2, out2, [][2]string{{"URL", dest2}, {"SAMLResponse", v}, {"RelayState", relay}}, dest2, 1, nil, "", "")
 		}
 		// IdP response form
 		{
